@@ -619,11 +619,43 @@ def compact_during_install(**kw):
     return sc.rec
 
 
+def member_rollback(**kw):
+    """a node cuts a conflicting tail that starts right behind a committed membership entry: the membership entry stays"""
+    sc = Script(base_cfg([1, 2, 3], dyn=True, fallback=60), **kw)
+    s = sc.s
+    s.boot()
+    sc.elect(1)
+    sc.settle([1, 2, 3], 3)
+    s.voters.append(4)
+    s.clock[4] = 0
+    sc.rec.do(('restart', 4, [1, 2, 3], 1, 5))
+    s.alive.add(4)
+    sc.rec.do(('admin', 1, True, 4, 901))
+    s.tick(1, 11)
+    for b in (1, 2, 3):
+        s.connect(b, 4)
+        s.connect(4, b)
+    sc.settle([1, 2, 3, 4], 4)
+    for b in (2, 3):                  # 2 and 3 know 4 as a member only now
+        s.connect(b, 4)
+        s.connect(4, b)
+    sc.settle([1, 2, 3, 4], 4)        # 'add 4' committed everywhere (index 3)
+    sc.isolate(1)
+    s.submit(1, size=5)               # index 4 in term 1, on node 1 only
+    s.tick(1, 11)
+    sc.elect_until(2, [3, 4])         # term 2: its no-op takes index 4
+    sc.settle([2, 3, 4], 3)
+    sc.join(1)
+    sc.settle([1, 2, 3, 4], 6)        # 1 cuts its index 4; 'add 4' at index 3 must stay in force
+    return sc.rec
+
+
 SCENARIOS = {'d7': d7, 'd8': d8, 'd17': d17, 'd16': d16, 'd1': d1, 'd20': d20,
              'snapshot_catchup': snapshot_catchup, 'forwarded': forwarded,
              'restart_double_vote': restart_double_vote, 'd18': d18, 'd10': d10, 'd19': d19, 'd6': d6,
              'ser_fork': ser_fork, 'ser_custom': ser_custom, 'fig8': fig8, 'stale_match_reelected': stale_match_reelected,
-             'stale_cursor': stale_cursor, 'compact_during_install': compact_during_install}
+             'stale_cursor': stale_cursor, 'compact_during_install': compact_during_install,
+             'member_rollback': member_rollback}
 NAMES = sorted(SCENARIOS)
 
 
